@@ -9,7 +9,7 @@ import ast, re
 from ..core import AnalysisError, node_src
 from ..engine import pyflow, tables
 from ..engine.pyindex import walk_no_nested, is_self_attr
-from .iface import const_strs, local_env, str_template, PLACEHOLDER
+from .iface import const_strs, local_env, str_template
 
 INT_PREDICATES = ('is_int', 'is_enum')
 
